@@ -81,10 +81,11 @@ Lemma p_stmt_S f s0 :
                                (p_expect (p_tag toks (is_k RCurly)) (MissingClosing 125%N))))))
       (p_alt (p_call toks f)
       (p_alt (p_assign toks f)
+         (p_restore
          (p_map (fun r => let '((_, ignored), inf) := r in
                           SError (info_append inf {| e_s := i_s inf; e_e := i_e inf;
                                                      e_m := EParse (UnexpectedCharacters (show_tokens ignored)) |}))
-            (p_info (p_pair (p_comments toks) (p_ignore1 toks (la_stmt toks)))))))))) s0.
+            (p_info (p_pair (p_comments toks) (p_ignore1 toks (la_stmt toks))))))))))) s0.
 Proof. reflexivity. Qed.
 
 
@@ -303,7 +304,7 @@ Proof.
   rewrite (p_tag_no toks (is_k LCurly) k r _ _ _ H eq_refl eq_refl).
   rewrite (call_no_ident k r _ _ _ f H eq_refl eq_refl).
   rewrite (assign_no_ident k r _ _ _ f H eq_refl eq_refl ltac:(lia)).
-  unfold p_comments, p_ignore1. comb. rewrite (comments_at_ok toks _ _ _ _ H eq_refl).
+  unfold p_restore, p_comments, p_ignore1. comb. rewrite (comments_at_ok toks _ _ _ _ H eq_refl).
   apply at_cm in H. unfold la_stmt. rewrite (la_tag_at toks _ _ [] _ _ H eq_refl). cbn [orb]. eexists; reflexivity.
 Qed.
 
